@@ -22,6 +22,9 @@ func init() {
 func coreC03(tier string) []RunSpec {
 	var out []RunSpec
 	// deterministic sequential histories, one per kind, with and without watcher
+	for v := 1; v <= 2; v++ { // partial melt quote on the own invoice of an unpaid / an issued quote
+		out = append(out, RunSpec{Profile: "core:internal-partial", Params: map[string]int{"kind": kindIdx("internal"), "watcher": 0, "mpp": 1, "partial": v}})
+	}
 	for _, kind := range []string{"seq", "internal", "nut20", "race", "faulted"} {
 		for w := 0; w <= 1; w++ {
 			n := 1
@@ -68,7 +71,11 @@ func runC03(rc *RunCtx) {
 		ln.AmbiguousPct = 15
 	}
 	rc.S.Policy = T.Choose("cfg.policy", 2)
-	w := rc.NewMintWorld(ln, MintOpts{Fee: 0})
+	mpp := T.Chance("cfg.mpp", 1, 2)
+	if v, ok := rc.Spec.Params["mpp"]; ok {
+		mpp = v == 1
+	}
+	w := rc.NewMintWorld(ln, MintOpts{Fee: 0, MPP: mpp})
 	_ = w
 	user := NewActor(rc.W, "user")
 	rc.Quietly(func() { user.Fund("A", 256) })
@@ -237,6 +244,16 @@ func c03Internal(rc *RunCtx, user *Actor, step int) {
 	mintFirst := T.Chance("int.mintfirst", 1, 3)
 	lnFail := !(alsoLN && mintFirst) && T.Chance("int.lnfail", 1, 3)
 	forged := amount > 1 && T.Chance("int.forged", 1, 4)
+	// a partial (MPP) melt quote on the mint's own invoice, in whatever state the mint quote is: if the
+	// mint accepts it, what it settles is judged like any other internal settlement
+	partial := amount > 1 && !forged && T.Chance("int.partial", 1, 3)
+	if v, ok := rc.Spec.Params["partial"]; ok {
+		partial, forged, lnFail = v > 0, false, false
+		alsoLN, mintFirst = v == 2, v == 2
+		if amount < 2 {
+			amount = 2
+		}
+	}
 	ambBefore := W.LN.Cfg.AmbiguousPct
 	rc.S.BeginEpisode()
 	rc.S.Go(name, W.Ext, true, func() {
@@ -257,9 +274,14 @@ func c03Internal(rc *RunCtx, user *Actor, step int) {
 				rc.S.Probe("c03_forged_invoice_same_hash")
 			}
 		}
-		lq, _ := a.ReqMeltQuote("A", request, 0)
+		var mppMsat uint64
+		if partial {
+			mppMsat = 1000
+			rc.S.Probe("c03_partial_melt_quote_on_own_invoice")
+		}
+		lq, _ := a.ReqMeltQuote("A", request, mppMsat)
 		if lq == nil {
-			if forged {
+			if forged || partial {
 				// refused: the quote is unpaid, mint requests must be refused too
 				a.Mint("A", q, W.NewOutputs(Split(amount), ks.ID), "")
 			}
